@@ -9,14 +9,19 @@
 (* C16, scanner part: the callback of the right kind is invoked exactly    *)
 (* once for every entry of the range the matcher selects, never for any    *)
 (* other entry; every fetched entry is processed once; the scan terminates.*)
+(* "Selects" is decided per entry class (ScanSelect.tla): clean / parses    *)
+(* with non-fatal errors only / fatally broken, for X.509 and precert      *)
+(* entries, for Matcher-type and LeafMatcher-type matchers.                *)
 (***************************************************************************)
-EXTENDS Fetcher
+EXTENDS Fetcher, ScanSelect
 
 CONSTANTS
   Matchers,    \* matcher worker identities
   BufSize,     \* capacity of the entries channel (0 = rendezvous)
   Kind(_),     \* Kind(i) \in {"x509", "precert"}: the entry type of index i
-  Sel(_)       \* Sel(i): the matcher (and PrecertOnly) selects entry i
+  Class(_),    \* Class(i) \in Classes: how the (pre-)certificate of entry i parses
+  Wants(_),    \* Wants(i): the verdict of the matcher (and PrecertOnly) on entry i when it is asked
+  MTypes       \* the matcher types explored (subset of MatcherTypes)
 
 VARIABLES
   queue,       \* the entries channel: indices in flight
@@ -26,9 +31,13 @@ VARIABLES
   called,      \* called[i] = [x509 |-> times the cert callback got i, precert |-> times the precert callback got i]
   processed,   \* certsProcessed
   qclosed,     \* the entries channel is closed (after Fetcher.Run returned)
-  sreturned    \* "no" | "ok" | "err": Scan has returned
+  sreturned,   \* "no" | "ok" | "err": Scan has returned
+  mtype        \* the type of the configured matcher (constant during a scan)
 
-svars == <<queue, wpos, mpc, mcur, called, processed, qclosed, sreturned>>
+svars == <<queue, wpos, mpc, mcur, called, processed, qclosed, sreturned, mtype>>
+
+\* the scan owes entry i a callback
+Sel(i) == Selected(Wants(i), Class(i), mtype)
 allvars == <<fvars, svars>>
 
 SInit ==
@@ -41,13 +50,14 @@ SInit ==
   /\ processed = 0
   /\ qclosed = FALSE
   /\ sreturned = "no"
+  /\ mtype \in MTypes
 
 \* flatten: the next entry of the batch goes into the channel buffer ...
 Push(w) ==
   /\ wpc[w] = "got" /\ wpos[w] < wgot[w] /\ Len(queue) < BufSize
   /\ queue' = Append(queue, wrng[w].s + wpos[w])
   /\ wpos' = [wpos EXCEPT ![w] = @ + 1]
-  /\ UNCHANGED <<fvars, mpc, mcur, called, processed, qclosed, sreturned>>
+  /\ UNCHANGED <<fvars, mpc, mcur, called, processed, qclosed, sreturned, mtype>>
 
 \* ... or straight to a matcher worker blocked in receive
 Handoff(w, m) ==
@@ -55,45 +65,46 @@ Handoff(w, m) ==
   /\ mpc' = [mpc EXCEPT ![m] = "proc"]
   /\ mcur' = [mcur EXCEPT ![m] = wrng[w].s + wpos[w]]
   /\ wpos' = [wpos EXCEPT ![w] = @ + 1]
-  /\ UNCHANGED <<fvars, queue, called, processed, qclosed, sreturned>>
+  /\ UNCHANGED <<fvars, queue, called, processed, qclosed, sreturned, mtype>>
 
 \* the callback returns to the fetch worker: Deliver of Fetcher.tla
 FlattenDone(w) ==
   /\ wpos[w] = wgot[w]
   /\ Deliver(w)
   /\ wpos' = [wpos EXCEPT ![w] = 0]
-  /\ UNCHANGED <<queue, mpc, mcur, called, processed, qclosed, sreturned>>
+  /\ UNCHANGED <<queue, mpc, mcur, called, processed, qclosed, sreturned, mtype>>
 
 MTake(m) ==
   /\ mpc[m] = "idle" /\ queue # <<>>
   /\ mpc' = [mpc EXCEPT ![m] = "proc"]
   /\ mcur' = [mcur EXCEPT ![m] = Head(queue)]
   /\ queue' = Tail(queue)
-  /\ UNCHANGED <<fvars, wpos, called, processed, qclosed, sreturned>>
+  /\ UNCHANGED <<fvars, wpos, called, processed, qclosed, sreturned, mtype>>
 
-\* processEntry
+\* processEntry: a "matcher" is asked unless the entry is fatally broken (then the entry only counts as unparsable),
+\* a "leaf" matcher is always asked; a selected entry goes to the callback of its kind
 MProcess(m) ==
   /\ mpc[m] = "proc"
   /\ processed' = processed + 1
   /\ called' = IF Sel(mcur[m]) THEN [called EXCEPT ![mcur[m]][Kind(mcur[m])] = @ + 1] ELSE called
   /\ mpc' = [mpc EXCEPT ![m] = "idle"]
   /\ mcur' = [mcur EXCEPT ![m] = -1]
-  /\ UNCHANGED <<fvars, queue, wpos, qclosed, sreturned>>
+  /\ UNCHANGED <<fvars, queue, wpos, qclosed, sreturned, mtype>>
 
 CloseEntries ==
   /\ returned # "no" /\ ~qclosed
   /\ qclosed' = TRUE
-  /\ UNCHANGED <<fvars, queue, wpos, mpc, mcur, called, processed, sreturned>>
+  /\ UNCHANGED <<fvars, queue, wpos, mpc, mcur, called, processed, sreturned, mtype>>
 
 MExit(m) ==
   /\ mpc[m] = "idle" /\ qclosed /\ queue = <<>>
   /\ mpc' = [mpc EXCEPT ![m] = "done"]
-  /\ UNCHANGED <<fvars, queue, wpos, mcur, called, processed, qclosed, sreturned>>
+  /\ UNCHANGED <<fvars, queue, wpos, mcur, called, processed, qclosed, sreturned, mtype>>
 
 SReturn ==
   /\ sreturned = "no" /\ \A m \in Matchers : mpc[m] = "done"
   /\ sreturned' = returned
-  /\ UNCHANGED <<fvars, queue, wpos, mpc, mcur, called, processed, qclosed>>
+  /\ UNCHANGED <<fvars, queue, wpos, mpc, mcur, called, processed, qclosed, mtype>>
 
 SStep == \/ \E w \in Workers : Push(w) \/ FlattenDone(w) \/ \E m \in Matchers : Handoff(w, m)
          \/ \E m \in Matchers : MTake(m) \/ MProcess(m) \/ MExit(m)
